@@ -18,7 +18,12 @@ pub enum Ev {
     Req(usize, Version), // socket index, protocol
     Bad(usize),
     Step,
+    /// one step during which a request from (socket, protocol) arrives when the worker passes the
+    /// given hook point for the first time (0 = polled, 1 = collected, 2 = sent)
+    StepInject(u8, usize, Version),
 }
+
+const POINTS: [&str; 3] = ["polled", "collected", "sent"];
 
 impl Ev {
     pub fn name(&self) -> String {
@@ -27,11 +32,18 @@ impl Ev {
             Ev::Req(s, Version::Ietf13) => format!("I{}", s),
             Ev::Bad(s) => format!("X{}", s),
             Ev::Step => "step".into(),
+            Ev::StepInject(p, s, v) => format!("step+{}{}@{}", if *v == Version::Classic { "C" } else { "I" }, s, POINTS[*p as usize]),
         }
     }
     pub fn parse(s: &str) -> Option<Ev> {
         if s == "step" {
             return Some(Ev::Step);
+        }
+        if let Some(rest) = s.strip_prefix("step+") {
+            let (req, pt) = rest.split_once('@')?;
+            let p = POINTS.iter().position(|x| *x == pt)? as u8;
+            let (k, n) = req.split_at(1);
+            return Some(Ev::StepInject(p, n.parse().ok()?, if k == "C" { Version::Classic } else { Version::Ietf13 }));
         }
         let (k, n) = s.split_at(1);
         let n: usize = n.parse().ok()?;
@@ -48,6 +60,8 @@ pub struct Sent {
     pub sock: usize,
     pub version: Option<Version>, // None = invalid datagram
     pub bytes: Vec<u8>,
+    /// harness clock (us since epoch) just before the datagram was sent
+    pub t_sent_us: u64,
 }
 
 pub struct Obs {
@@ -58,6 +72,10 @@ pub struct Obs {
     pub t_before_us: u64,
     pub t_after_us: u64,
     pub infos: Vec<(usize, Version, Info)>, // (sent index, version, verified info)
+    /// per socket, parallel to `received`: harness clock (us) when the datagram was drained
+    pub recv_us: Vec<Vec<u64>>,
+    /// (sent index, receive time) for every matched reply, parallel to `infos`
+    pub info_times: Vec<(u64, u64)>,
     pub stats: Option<StatsSnap>,
     pub log: Vec<String>,
     pub srv_addr: std::net::SocketAddr,
@@ -116,6 +134,8 @@ pub fn run_events(srv: &mut Srv, evs: &[Ev], nsock: usize, capture_log: bool) ->
     let mut counts = vec![[0usize; 2]; nsock];
     let mut sent = vec![];
     let mut panic = None;
+    let mut received: Vec<Vec<(Vec<u8>, std::net::SocketAddr)>> = vec![vec![]; nsock];
+    let mut recv_us: Vec<Vec<u64>> = vec![vec![]; nsock];
     if capture_log {
         crate::inproc::capture_start();
     }
@@ -126,19 +146,54 @@ pub fn run_events(srv: &mut Srv, evs: &[Ev], nsock: usize, capture_log: bool) ->
                 let vi = if v == Version::Classic { 0 } else { 1 };
                 let b = pool_request(v, counts[s][vi]);
                 counts[s][vi] += 1;
+                let t = now_us();
                 clients[s].send(srv.addr, &b);
-                sent.push(Sent { sock: s, version: Some(v), bytes: b });
+                sent.push(Sent { sock: s, version: Some(v), bytes: b, t_sent_us: t });
             }
             Ev::Bad(s) => {
                 let b = bad_datagram();
+                let t = now_us();
                 clients[s].send(srv.addr, &b);
-                sent.push(Sent { sock: s, version: None, bytes: b });
+                sent.push(Sent { sock: s, version: None, bytes: b, t_sent_us: t });
             }
             Ev::Step => {
                 if let Err(p) = srv.step() {
                     panic = Some(p);
                     break;
                 }
+                drain_into(&clients, &mut received, &mut recv_us);
+            }
+            Ev::StepInject(pt, s, v) => {
+                let vi = if v == Version::Classic { 0 } else { 1 };
+                let b = pool_request(v, counts[s][vi]);
+                counts[s][vi] += 1;
+                // the arrival happens inside the step, at the hook point
+                let sock = clients[s].sock.try_clone().expect("clone socket");
+                let addr = srv.addr;
+                let b2 = b.clone();
+                let t_inject = now_us();
+                let fired = std::rc::Rc::new(std::cell::Cell::new(false));
+                let f2 = fired.clone();
+                let want = POINTS[pt as usize];
+                roughenough::verif::set_callback(Some(Box::new(move |kind, _| {
+                    if kind == want && !f2.get() {
+                        f2.set(true);
+                        let _ = sock.send_to(&b2, addr);
+                    }
+                })));
+                let r = srv.step();
+                roughenough::verif::set_callback(None);
+                if !fired.get() {
+                    // the point was not passed in this step (e.g. nothing was pending): the arrival
+                    // happens right after the step instead
+                    clients[s].send(srv.addr, &b);
+                }
+                sent.push(Sent { sock: s, version: Some(v), bytes: b, t_sent_us: t_inject });
+                if let Err(p) = r {
+                    panic = Some(p);
+                    break;
+                }
+                drain_into(&clients, &mut received, &mut recv_us);
             }
         }
     }
@@ -147,11 +202,24 @@ pub fn run_events(srv: &mut Srv, evs: &[Ev], nsock: usize, capture_log: bool) ->
             panic = Some(p);
         }
     }
+    drain_into(&clients, &mut received, &mut recv_us);
     let t_after_us = now_us();
-    let received: Vec<Vec<(Vec<u8>, std::net::SocketAddr)>> = clients.iter().map(|c| c.drain()).collect();
     let stats = if panic.is_none() { Some(snap(srv.server.verif_stats())) } else { None };
     let log = if capture_log { crate::inproc::capture_take() } else { vec![] };
-    Obs { sent, received, panic, t_before_us, t_after_us, infos: vec![], stats, log, srv_addr: srv.addr }
+    Obs { sent, received, panic, t_before_us, t_after_us, infos: vec![], recv_us, info_times: vec![], stats, log, srv_addr: srv.addr }
+}
+
+fn drain_into(clients: &[Client], received: &mut Vec<Vec<(Vec<u8>, std::net::SocketAddr)>>, recv_us: &mut Vec<Vec<u64>>) {
+    for (i, c) in clients.iter().enumerate() {
+        let got = c.drain();
+        if !got.is_empty() {
+            let t = now_us();
+            for g in got {
+                received[i].push(g);
+                recv_us[i].push(t);
+            }
+        }
+    }
 }
 
 /// The C09 oracle. Fills obs.infos. Returns violations (clause, class, message).
@@ -171,7 +239,7 @@ pub fn judge(obs: &mut Obs, lt_pk: &[u8], fault: bool) -> Vec<(String, String, S
             let clause = if got < expected { "missing-reply" } else { "extra-reply" };
             out.push((clause.into(), format!("sock{}", s.min(1)), format!("socket {} sent {} accepted requests, received {} datagrams", s, expected, got)));
         }
-        for (reply, from) in obs.received[s].clone() {
+        for (ri, (reply, from)) in obs.received[s].clone().into_iter().enumerate() {
             if from != obs.srv_addr {
                 out.push(("reply-from-wrong-address".into(), "addr".into(), format!("{}", from)));
             }
@@ -204,6 +272,7 @@ pub fn judge(obs: &mut Obs, lt_pk: &[u8], fault: bool) -> Vec<(String, String, S
                         out.push(("reply-protocol-differs".into(), v.name().into(), "framing".into()));
                     }
                     obs.infos.push((si, v, info));
+                    obs.info_times.push((obs.sent[si].t_sent_us, obs.recv_us[s].get(ri).copied().unwrap_or(obs.t_after_us)));
                 }
                 None => {
                     out.push(("reply-not-for-own-request".into(), first_err.into(), format!("socket {} received a datagram that is not an authentic reply to any of its unanswered requests ({}): {}", s, first_err, hex_trunc(&reply, 96))));
@@ -313,6 +382,60 @@ pub fn run(ctx: &Ctx) -> Result<(), String> {
         }
     }
 
+    // mid-step arrivals: prefix (<= 2 events) + one step during which a request arrives at a hook
+    // point (after poll returned / after the socket was seen empty / after the replies were sent)
+    // + suffix (<= 1 event); the arrival after WouldBlock must raise a fresh readiness edge
+    let inject_n = AtomicU64::new(0);
+    {
+        let mut hs: Vec<Vec<Ev>> = vec![];
+        let mut prefixes: Vec<Vec<Ev>> = vec![vec![]];
+        for l in 1..=2usize {
+            for idx in 0..al.len().pow(l as u32) {
+                prefixes.push(history_from_index(idx, l, &al));
+            }
+        }
+        let mut suffixes: Vec<Vec<Ev>> = vec![vec![]];
+        for e in &al {
+            suffixes.push(vec![*e]);
+        }
+        for pre in &prefixes {
+            for pt in 0..3u8 {
+                for (sk, v) in [(0usize, Version::Classic), (1, Version::Classic), (0, Version::Ietf13)] {
+                    for suf in &suffixes {
+                        let mut h = pre.clone();
+                        h.push(Ev::StepInject(pt, sk, v));
+                        h.extend(suf.iter().cloned());
+                        hs.push(h);
+                    }
+                }
+            }
+        }
+        for bs in [1u8, 2, 3] {
+            let cfg = SrvCfg { batch_size: bs, ..Default::default() };
+            par_for(hs.len(), 32, |k, _| {
+                let h = &hs[k];
+                let mut srv = match Srv::new(&cfg) {
+                    Ok(s) => s,
+                    Err(e) => {
+                        *failed.lock().unwrap() = Some(e);
+                        return;
+                    }
+                };
+                let mut obs = run_events(&mut srv, h, 2, false);
+                let vs = judge(&mut obs, &lt_pk, false);
+                inject_n.fetch_add(1, Relaxed);
+                transitions.fetch_add(h.len() as u64 + 3, Relaxed);
+                replies.fetch_add(obs.infos.len() as u64, Relaxed);
+                for (clause, class, msg) in vs {
+                    ctx.violation(&clause, "responder", &format!("mid-step-arrival/{}", class), json!({"kind":"events","history":hist_json(&cfg, h),"message":msg}));
+                }
+            });
+            if let Some(e) = failed.lock().unwrap().take() {
+                return Err(e);
+            }
+        }
+    }
+
     // differential: same suffix after a prefix vs on a fresh server (history independence)
     let diff_n = AtomicU64::new(0);
     {
@@ -412,13 +535,14 @@ pub fn run(ctx: &Ctx) -> Result<(), String> {
     let st = states.lock().unwrap().len();
     ctx.cov("states", json!(st));
     ctx.cov("transitions", json!(transitions.load(Relaxed)));
-    ctx.cov("traces_validated_against_impl", json!(hist_n.load(Relaxed) + diff_n.load(Relaxed) * 2 + burst_n.load(Relaxed)));
-    ctx.cov("evaluations", json!(hist_n.load(Relaxed) + diff_n.load(Relaxed) + burst_n.load(Relaxed)));
+    ctx.cov("traces_validated_against_impl", json!(hist_n.load(Relaxed) + inject_n.load(Relaxed) + diff_n.load(Relaxed) * 2 + burst_n.load(Relaxed)));
+    ctx.cov("evaluations", json!(hist_n.load(Relaxed) + inject_n.load(Relaxed) + diff_n.load(Relaxed) + burst_n.load(Relaxed)));
+    ctx.cov("mid_step_arrival_histories", json!(inject_n.load(Relaxed)));
     ctx.cov("distinct_nontrivial", json!(hist_n.load(Relaxed)));
     ctx.cov("replies_matched", json!(replies.load(Relaxed)));
     ctx.cov("exhaustive", json!(true));
     ctx.cov("bound", json!({"history_depth": depth, "alphabet": al.iter().map(|e| e.name()).collect::<Vec<_>>(), "batch_sizes_histories":[1,2,3], "differential_suffix_len": ctx.tier.pick(3,4), "burst_batch_sizes": ctx.tier.pick(13, 64)}));
-    ctx.cov("rule", json!(format!("all event sequences of length 1..={} over {{C0,C1,I0,I1 (valid classic/IETF request from socket 0/1), X0 (invalid datagram), step}} for batch_size 1,2,3, each completed to quiescence on a fresh real in-process Server (stateless enumeration; `states` = distinct canonical end states: per-socket reply counts, batch-size multiset, stats totals). Nonce pool forces byte-identical requests from different sockets, immediate byte-identical retransmissions on one socket, then a different request, then repeats. Oracle: per socket, the received datagrams are exactly one authentic reply (rtref::authentic bound to the exact request bytes) per accepted request sent from that socket, nothing for rejected datagrams, replies come from the server's address, framing matches the request's protocol. Differential: every suffix of length {} after 3 prefixes vs on a fresh server. Parametric bursts: batch sizes x k in {{b-1,b,b+1,2b,2b+1}} x 6 patterns.", depth, ctx.tier.pick(3,4))));
+    ctx.cov("rule", json!(format!("all event sequences of length 1..={} over {{C0,C1,I0,I1 (valid classic/IETF request from socket 0/1), X0 (invalid datagram), step}} for batch_size 1,2,3, each completed to quiescence on a fresh real in-process Server (stateless enumeration; `states` = distinct canonical end states: per-socket reply counts, batch-size multiset, stats totals). Nonce pool forces byte-identical requests from different sockets, immediate byte-identical retransmissions on one socket, then a different request, then repeats. Oracle: per socket, the received datagrams are exactly one authentic reply (rtref::authentic bound to the exact request bytes) per accepted request sent from that socket, nothing for rejected datagrams, replies come from the server's address, framing matches the request's protocol. Mid-step arrivals: every prefix of <= 2 events + one step during which a request arrives at the polled/collected/sent hook point + every suffix of <= 1 event (a datagram arriving after the socket was seen empty must still be answered). Differential: every suffix of length {} after 3 prefixes vs on a fresh server. Parametric bursts: batch sizes x k in {{b-1,b,b+1,2b,2b+1}} x 6 patterns.", depth, ctx.tier.pick(3,4))));
     ctx.sample(json!({"batch_size":2,"events":["C0","C1","I0","step","X0","I1"]}));
     ctx.sample(json!({"kind":"burst","batch_size":64,"k":129,"pattern":"CIX"}));
     ctx.assume("loopback UDP delivery is synchronous with send_to (self-tested)");
@@ -436,7 +560,7 @@ pub fn replay_case(c: &Value) -> Result<Option<String>, String> {
     let lt_pk = crypto::public_key(&cfg.seed);
     crate::util::on_named_thread("worker-0", || {
         let mut srv = Srv::new(&cfg)?;
-        let nsock = evs.iter().map(|e| match e { Ev::Req(s, _) | Ev::Bad(s) => *s + 1, _ => 1 }).max().unwrap_or(1);
+        let nsock = evs.iter().map(|e| match e { Ev::Req(s, _) | Ev::Bad(s) | Ev::StepInject(_, s, _) => *s + 1, _ => 1 }).max().unwrap_or(1);
         let mut obs = run_events(&mut srv, &evs, nsock, false);
         let v = judge(&mut obs, &lt_pk, cfg.fault > 0);
         Ok(v.first().map(|x| format!("{} {} {}", x.0, x.1, x.2)))
